@@ -97,7 +97,7 @@ func (m *c02Model) allowed(id *c02Identity, num int64, ts uint64) (bool, string)
 
 func TestC02_NeverEarly(t *testing.T) {
 	rec := recorder("C02")
-	rec.AddRule("rapid state machine over one Shutter-service keyper (verif-tagged constructor, real trigger decision code, real KeyShareHandler and service middleware behind the trigger channel, real schema on pgfake): 1-3 keyper sets (member / not member, distinct and equal activation blocks), eons {none, pending, failed, succeeded, failed-then-restarted pending|succeeded}, time-registered identities with release times at tau-1 / tau / tau+1 around the generated block times, event-trigger registrations with and without a fired_triggers row, decrypted flags; actions: new block (number, time; non-monotone times allowed), register identity, DKG event (eon row / dkg_result row appears), keys released (real keys handler with the keys of 1-3 identities of one keyper set -> decrypted flags), restart (new Keyper object on the same database). Oracle (safety): every identity of every trigger put on the channel while processing block (N, tau), and of every DecryptionKeyShares message handed to SendMessage, satisfies the statement's release condition in the model; identities of a trigger are strictly increasing; a share message names the keyper set the identity was registered for. non-trivial = a block whose time equals a pending release time, or processed while the identity's set has a failed/pending newest eon, or a restart between registration and release; distinct by history")
+	rec.AddRule("rapid state machine over one Shutter-service keyper (verif-tagged constructor, real trigger decision code, real KeyShareHandler and service middleware behind the trigger channel, real schema on pgfake): 1-3 keyper sets (member / not member, distinct and equal activation blocks), eons {none, pending, failed, succeeded, failed-then-restarted pending|succeeded}, time-registered identities with release times at tau-1 / tau / tau+1 around the generated block times, event-trigger registrations with and without a fired_triggers row, decrypted flags; actions: new block (number, time; non-monotone times allowed), register identity, DKG event (eon row / dkg_result row appears), keys released (real keys handler with the keys of 1-3 identities of one keyper set -> decrypted flags), restart (new Keyper object on the same database). Oracle (safety): every identity of every trigger put on the channel while processing block (N, tau), and of every DecryptionKeyShares message handed to SendMessage, satisfies the statement's release condition in the model; identities of a trigger are strictly increasing; a share message names the keyper set the identity was registered for (judged when that set is the only one activating at its block). non-trivial = a block whose time equals a pending release time, or processed while the identity's set has a failed/pending newest eon, or a restart between registration and release; distinct by history")
 	rec.Assume("pgfake; fired_triggers rows are written by the harness only for logs within the trigger's lifetime (producing them from chain logs is C16's subject)")
 	ctx := context.Background()
 	runRapid(t, N(600, 8000), func(rt *rapid.T) {
@@ -299,6 +299,17 @@ func TestC02_NeverEarly(t *testing.T) {
 							// ... and the share is contributed for a keyper set the keyper belongs to whose key generation succeeded
 							if ok, why := model.decryptable(int64(sh.Eon)); !ok {
 								fatalf(rt, "share-for-unusable-keyper-set", "key shares sent for keyper set %d although %s\nhistory: %s", sh.Eon, why, strings.Join(desc, " ; "))
+							}
+							// the trigger carries the activation block of the keyper set it was made for; when only one
+							// keyper set activates at that block the shares must name that set
+							var at []int64
+							for _, set := range model.Sets {
+								if uint64(set.Activation) == tev.Value.BlockNumber {
+									at = append(at, set.Cfg)
+								}
+							}
+							if len(at) == 1 && int64(sh.Eon) != at[0] {
+								fatalf(rt, "share-for-other-keyper-set", "trigger made for keyper set %d (the only one activating at block %d) answered with key shares for keyper set %d\nhistory: %s", at[0], tev.Value.BlockNumber, sh.Eon, strings.Join(desc, " ; "))
 							}
 							for _, sid := range sids {
 								if _, reg := model.IDs[fmt.Sprintf("%d/%x", sh.Eon, sid)]; !reg {
